@@ -98,7 +98,14 @@ func (e *rpcEnv) runWs(ev *RpcEv) {
 			}
 		}
 		if c.WsClose {
-			conn.Write(wsFrame(8, true, true, 0, []byte{0x03, 0xe8})) // 1000, no reason
+			switch c.WsCloseAs {
+			case 1001:
+				conn.Write(wsFrame(8, true, true, 0, []byte{0x03, 0xe9}))
+			case -1:
+				conn.Write(wsFrame(8, true, true, 0, nil)) // no status code at all
+			default:
+				conn.Write(wsFrame(8, true, true, 0, []byte{0x03, 0xe8})) // 1000, no reason
+			}
 		}
 		rest, _ := io.ReadAll(br) // until the server closes the connection (or the deadline)
 		co.BodyLen = len(rest)
